@@ -210,6 +210,25 @@ def _state(model):
     return st
 
 
+def _derived(model):
+    """Public derived quantities (anything a cache could hold): read on the live model at every step."""
+    out = {}
+    with warnings.catch_warnings():
+        warnings.simplefilter("ignore")
+        with np.errstate(all="ignore"):
+            out["integral_scale"] = float(model.integral_scale)
+            out["integral_scale_vec"] = [float(v) for v in np.atleast_1d(model.integral_scale_vec)]
+            out["len_scale_vec"] = [float(v) for v in np.atleast_1d(model.len_scale_vec)]
+            out["len_rescaled"] = float(model.len_rescaled)
+            out["sill"] = float(model.sill)
+            out["is_isotropic"] = float(bool(model.is_isotropic))
+            out["percentile_scale(0.5)"] = float(model.percentile_scale(0.5))
+            out["spectral_density(1/l)"] = float(np.asarray(model.spectral_density(np.array([1.0 / float(model.len_scale)])))[0])
+            x = np.full((int(model.dim), 1), 0.37 * float(model.len_scale))
+            out["cov_spatial"] = float(np.asarray(model.cov_spatial(x if not model.latlon else x[: model.field_dim]))[0])
+    return out
+
+
 def _close(a, b, rel=1e-13):
     a, b = np.asarray(a, dtype=float), np.asarray(b, dtype=float)
     if a.shape != b.shape:
@@ -303,6 +322,10 @@ def check_history(ctx, c):
         ops += ["bounds"]
         op = str(rng.choice(ops))
         kind = str(rng.choice(["in", "in", "in", "edge", "out"]))
+        try:
+            _derived(model)  # a user reads derived quantities between two assignments
+        except Exception:  # noqa: BLE001  (judged below on the accepted state)
+            pass
         before = _state(model)
         bounds = {k: list(v) for k, v in model.arg_bounds.items()}
         sh2 = copy.deepcopy(sh)
@@ -326,7 +349,7 @@ def check_history(ctx, c):
             sh2.len_scale = v
             action = lambda: setattr(model, "len_scale", v)
         elif op == "len_scale_list":
-            k = int(rng.integers(2, sh.dim + 2))
+            k = int(rng.integers(1, sh.dim + 2))  # incl. a one-element list: a single value never recalculates the ratios
             vals = [round(float(rng.uniform(0.3, 7.0)), 3) for _ in range(k)]
             if kind == "out":
                 vals[int(rng.integers(0, k))] = float(rng.choice([-1.0, 0.0]))
@@ -498,6 +521,18 @@ def check_history(ctx, c):
                 ctx.fail({"what": "history!=fresh-construction", "model": name, "cfg": cfg, "differs": k},
                          f"{k}: history {after[k]} vs constructed {fs[k]} (history {hist})")
                 return
+        try:
+            da, db = _derived(model), _derived(fresh)
+        except Exception as exc:  # noqa: BLE001
+            da = db = None
+            ctx.event("derived_quantities_unavailable")
+        if da is not None:
+            ctx.event("derived_quantities_compared", len(da))
+            for k in da:
+                if not (np.array_equal(np.atleast_1d(da[k]), np.atleast_1d(db[k]), equal_nan=True) or _close(da[k], db[k], 1e-9)):
+                    ctx.fail({"what": "derived-quantity-depends-on-history", "model": name, "cfg": cfg, "quantity": k, "op": op.split(":")[0]},
+                             f"{k}: live model {da[k]} vs freshly constructed {db[k]} after {desc} (history {hist})")
+                    return
         lags = np.array([0.0, 0.1, 0.7, 2.0, 9.0]) * after["len_scale"]
         with np.errstate(all="ignore"):
             va, vb = model.variogram(lags), fresh.variogram(lags)
